@@ -199,15 +199,94 @@ impl Part for Compositions {
     }
 }
 
+
+/// Writes between reads: a connection also writes on its own (keep-alive replies). Whatever was read before, every packet
+/// handed to write() must reach the transport, in call order, between the replies.
+#[derive(Clone, Debug)]
+pub struct InterleavedCase {
+    pub session: SessionCase,
+    /// (before read attempt k, frame of the packet to write)
+    pub writes: Vec<(usize, Vec<u8>)>,
+}
+
+pub struct Interleaved;
+impl Part for Interleaved {
+    type Case = InterleavedCase;
+    fn name(&self) -> &'static str {
+        "writes-interleaved-with-reads"
+    }
+    fn check(&self, c: &InterleavedCase, ev: &mut Local) -> Result<(), Fail> {
+        let s = &c.session;
+        let mode = s.mode();
+        let stream = s.stream();
+        let max_reads = boundaries(&stream, &mode).len() + s.steps.len() + 6;
+        let model = model_results(&mode, s.verify, &s.steps, true, max_reads);
+        let app: Vec<(usize, AppOp)> = c.writes.iter().map(|(k, f)| (*k, AppOp::Write(f.clone()))).collect();
+        let keepalive = "Ok(Tiny(Tiny { reqi: RequestId(0), subt: None }))";
+        // expected transport stream: user frames (independent encodings) before read k, the reply after a delivered keep-alive
+        let mut expected: Vec<u8> = vec![];
+        let mut user_frames = 0usize;
+        let mut after_keepalive = 0usize;
+        for (i, r) in model.iter().enumerate() {
+            for (_, f) in c.writes.iter().filter(|(k, _)| *k == i) {
+                if let Ok(p) = decode_one(f, &mode) {
+                    if let Ok(b) = Codec::new(mode.clone()).encode(&p) {
+                        expected.extend_from_slice(&b);
+                        user_frames += 1;
+                        if i > 0 && model[i - 1] == keepalive {
+                            after_keepalive += 1;
+                        }
+                    }
+                }
+            }
+            if r == keepalive {
+                expected.extend_from_slice(&[size_byte(&mode, 4), 3, 0, 0]);
+            }
+        }
+        let m = mode_name(&mode);
+        for (which, r) in [("blocking", run_blocking_app(&mode, s.verify, s.steps.clone(), s.writes.clone(), max_reads, &app)), ("tokio", run_tokio_app(&mode, s.verify, s.steps.clone(), s.writes.clone(), max_reads, &app))] {
+            if let Some(p) = &r.panic {
+                fail!("c06:panic", "{which}: {p}");
+            }
+            ensure!(r.results == model, "c06:reads-disturbed-by-writes", "{which} ({m}): reads returned {:?}, expected {:?}", r.results.iter().map(|x| x.chars().take(40).collect::<String>()).collect::<Vec<_>>(), model.iter().map(|x| x.chars().take(40).collect::<String>()).collect::<Vec<_>>());
+            if r.written != expected {
+                let first = r.written.iter().zip(expected.iter()).position(|(a, b)| a != b).unwrap_or(r.written.len().min(expected.len()));
+                let sig = if r.written.len() < expected.len() { "c06:written-packet-never-reached-the-transport" } else { "c06:bytes-duplicated-or-reordered" };
+                fail!(sig, "{which} ({m}): {user_frames} packets written between {} reads: the transport received {} bytes {}, expected {} bytes {}; first difference at byte {first}", model.len(), r.written.len(), hex(&r.written[..r.written.len().min(48)]), expected.len(), hex(&expected[..expected.len().min(48)]));
+            }
+        }
+        if user_frames > 0 && model.len() > 1 {
+            ev.nontrivial(&(session_json(s).to_string(), &c.writes));
+        }
+        if after_keepalive > 0 {
+            ev.class("write-right-after-a-delivered-keep-alive");
+        }
+        if c.writes.iter().any(|(_, f)| f.len() == 4 && f[1] == 3 && f[2] == 0 && f[3] == 0) {
+            ev.class("the application writes a TINY_NONE itself");
+        }
+        Ok(())
+    }
+    fn to_json(&self, c: &InterleavedCase) -> Value {
+        json!({"session": session_json(&c.session), "writes": c.writes.iter().map(|(k, f)| json!({"before_read": k, "frame": hex(f)})).collect::<Vec<_>>()})
+    }
+    fn from_json(&self, v: &Value) -> Option<InterleavedCase> {
+        let mut writes = vec![];
+        for w in v.get("writes")?.as_array()? {
+            writes.push((w.get("before_read")?.as_u64()? as usize, unhex(w.get("frame")?.as_str()?)?));
+        }
+        Some(InterleavedCase { session: session_from(v.get("session")?)?, writes })
+    }
+}
+
 pub fn parts() -> Vec<Box<dyn DynPart>> {
-    vec![Box::new(Writes), Box::new(Compositions)]
+    vec![Box::new(Writes), Box::new(Compositions), Box::new(Interleaved)]
 }
 
 pub fn run(run: &mut Run) {
     run.rule = "Packet sequences (1..20 packets decoded from conformant frames of all kinds, sizes 4..1020) are written through a blocking \
         and a tokio connection whose scripted transport accepts k in 1..=offered bytes per call (biased to 1, a few, all) and, for tokio, \
         returns Pending any number of times. Oracle: the bytes accumulated by the transport equal the concatenation of the encoder's frames \
-        and every write returned Ok; packets too large for the size mode are interspersed: their write must return an error and leave nothing on the wire, and the frames written after them must still be intact. Complete: all 128 acceptance patterns of an 8-byte frame (written twice) x 2 modes. Non-trivial = \
+        and every write returned Ok; packets too large for the size mode are interspersed: their write must return an error and leave nothing on the wire, and the frames written after them must still be intact. Writes between reads: sessions in which the peer sends packets (keep-alives among them, which the connection answers itself) and the application writes packets (TINY_NONE among them) between the reads: the transport must receive the replies and the written frames in call order, nothing missing, nothing twice. Complete: all 128 acceptance patterns of an 8-byte frame (written twice) x 2 modes. Non-trivial = \
         at least one call accepted less than offered or returned Pending."
         .into();
     run.assumptions = vec!["the expected byte stream is the concatenation of Codec::encode of each packet (C01-C03 judge the encoder)".into()];
@@ -235,4 +314,12 @@ pub fn run(run: &mut Run) {
     });
     let n = run.budget(20_000, 1_000_000);
     run.prop(&Writes, strat, n);
+    // writes between reads (the connection writes keep-alive replies of its own during reads)
+    let strat = (session_strategy(8, 4, 1, false, Some(false)), proptest::collection::vec((0usize..8, frame_strategy(5, 1)), 0..5)).prop_map(|(session, w)| {
+        let mode = session.mode();
+        let writes = w.into_iter().map(|(k, f)| (k, frame_bytes(&f, &mode))).collect();
+        InterleavedCase { session, writes }
+    });
+    let n = run.budget(20_000, 1_000_000);
+    run.prop(&Interleaved, strat, n);
 }
